@@ -78,6 +78,15 @@ func amBytes(n int) []byte {
 	return append(make([]byte, 0, n), argM...)
 }
 
+// ip4form: an IPv4 address as the 4-byte slice or (per-kind harnesses only) as the 16-byte
+// IPv4-in-IPv6 form net.ParseIP / net.IPv4 return; both mean the same 4 bytes on the wire
+func ip4form(b []byte) net.IP {
+	if !shortMode && vr.Bool("ip-in-16-byte-form") {
+		return net.IPv4(b[0], b[1], b[2], b[3])
+	}
+	return net.IP(b)
+}
+
 func buildField(kind int) *MatchField {
 	vr.Note("field", fieldKindNames[kind])
 	masked := maskMode == 1
@@ -120,10 +129,10 @@ func buildField(kind int) *MatchField {
 		return NewIpv4SrcField(net.IP(avBytes(4)), nil)
 	case 8:
 		if masked {
-			m := net.IP(amBytes(4))
-			return NewIpv4DstField(net.IP(avBytes(4)), &m)
+			m := ip4form(amBytes(4))
+			return NewIpv4DstField(ip4form(avBytes(4)), &m)
 		}
-		return NewIpv4DstField(net.IP(avBytes(4)), nil)
+		return NewIpv4DstField(ip4form(avBytes(4)), nil)
 	case 9:
 		if masked {
 			m := net.IP(amBytes(16))
